@@ -84,13 +84,14 @@ func newScopeRegistryWithShardCount(
 		sanitizedGaugeCardinalityName:     root.sanitizer.Name(gaugeCardinalityName),
 		sanitizedHistogramCardinalityName: root.sanitizer.Name(histogramCardinalityName),
 		sanitizedScopeCardinalityName:     root.sanitizer.Name(scopeCardinalityName),
-		cardinalityMetricsTags: map[string]string{
-			"version":  Version,
-			"host":     DefaultTagRedactValue,
-			"instance": DefaultTagRedactValue,
-		},
+		cardinalityMetricsTags:            make(map[string]string, 3+len(cardinalityMetricsTags)),
 	}
 
+	// The built-in tags go through the sanitizer like the user-supplied ones:
+	// everything handed to a reporter must be sanitized.
+	r.cardinalityMetricsTags[root.sanitizer.Key("version")] = root.sanitizer.Value(Version)
+	r.cardinalityMetricsTags[root.sanitizer.Key("host")] = root.sanitizer.Value(DefaultTagRedactValue)
+	r.cardinalityMetricsTags[root.sanitizer.Key("instance")] = root.sanitizer.Value(DefaultTagRedactValue)
 	for k, v := range cardinalityMetricsTags {
 		r.cardinalityMetricsTags[root.sanitizer.Key(k)] = root.sanitizer.Value(v)
 	}
